@@ -258,7 +258,7 @@ def run_sched(res, shard, nshards):
                 return "under this schedule thread %d writes comments it does not write sequentially: %r vs %r" % (i, str(got)[:200], str(want)[:200])
         return None
 
-    sched.MAX_PER_LABEL[0] = 2
+    sched.MAX_PER_LABEL[0] = 1
     out = sched.explore(lambda: [body(t) for t in SCHED_DOCS], "line", 1, judge, shard, nshards)
     res["evals"] += out["executions"]
     for k in out["outcomes"]:
@@ -266,7 +266,7 @@ def run_sched(res, shard, nshards):
     R.add_outcome(res, "schedules_same_as_sequential", out["executions"] - len(out["violations"]))
     for choices, msg, labels in out["violations"][:3]:
         R.add_violation(res, "schedule|two commented loads", msg, {"schedule": choices}, None)
-    R.add_sub(res, "schedules of two concurrent commented load+dump calls (<=1 pre-emption, line granularity, <=2 points per code line and thread)", out["executions"])
+    R.add_sub(res, "schedules of two concurrent commented load+dump calls (<=1 pre-emption, line granularity, 1 scheduling point per code line and thread)", out["executions"])
 
 
 def init_worker():
